@@ -112,6 +112,12 @@ Proof.
   - cbn. repeat constructor.
 Qed.
 
+Lemma tc_meta_only : forall p c nt, meta_only (TWrite p (tc_files c nt []) (tc_removes nt)).
+Proof.
+  intros p c nt. unfold tc_files, tc_removes. destruct (json_fields (ser_fields nt)); cbn; auto.
+  destruct (pkl_fields nt); cbn; repeat constructor.
+Qed.
+
 Lemma tasks_facts : forall o t p,
   Forall meta_only (tasks_of o t p) /\ Forall (under p) (map tag (tasks_of o t p)).
 Proof.
@@ -138,7 +144,7 @@ Proof.
       destruct (H2 (p ++ [string_of_nat i])) as [_ G]. eapply Forall_impl; [|exact G].
       intros g (r & Hr). exists (string_of_nat i :: r). now rewrite Hr, <- app_assoc.
   - cbn [tasks_of]. destruct (IHt (p ++ ["_tensordict"])) as [A B]. split.
-    + constructor; [repeat constructor|exact A].
+    + constructor; [apply tc_meta_only|exact A].
     + cbn [map]. constructor; [exists []; cbn; now rewrite app_nil_r|].
       eapply Forall_impl; [|exact B]. intros g (r & Hr). exists ("_tensordict" :: r). now rewrite Hr, <- app_assoc.
   - cbn [tasks_of]. split; [constructor; [apply ndata_meta_only|constructor]|].
